@@ -172,6 +172,9 @@ func lifecycle(r *RunCtx, parts MergeParts, wantSyn, wantVec bool) {
 	c := r.ch
 	w := newWorld(r, wantSyn, wantVec)
 	defer w.CloseAll()
+	if parts.Postings {
+		w.LargeDen = 25
+	}
 	abortable := c.Choose(3, "cfg.aborts") == 0
 
 	build := func() {
